@@ -166,13 +166,21 @@ def cigar_contract(seqs, trace, opts):
         dele = [int(r) for r, q in inner if q == -1 and r != -1]
         if not dele:
             return None
-        stop = dele[0]
-        while stop + 1 in dele:
-            stop += 1
-        opts = dict(opts, introns=[(dele[0], stop + 1)])
+        runs, k0 = [], 0
+        while k0 < len(dele):
+            k1 = k0
+            while k1 + 1 < len(dele) and dele[k1 + 1] == dele[k1] + 1:
+                k1 += 1
+            runs.append((dele[k0], dele[k1] + 1))
+            k0 = k1 + 1
+        # every run of deleted reference positions is declared an intron (listed in reversed order too)
+        opts = dict(opts, introns=runs if len(runs) % 2 else runs[::-1])
     cig = align.write_alignment_to_cigar(ali, **opts)
-    if opts.get("introns") and "N" not in cig:
-        return f"introns {opts['introns']} not reflected by 'N' in the CIGAR string {cig!r}"
+    if opts.get("introns"):
+        import re as _re
+        n_ops = [int(x) for x, o in _re.findall(r"(\d+)([MIDNSHP=X])", cig) if o == "N"]
+        if sum(n_ops) != sum(b - a for a, b in opts["introns"]) or "D" in cig:
+            return f"introns {opts['introns']} are written as {cig!r}: every intron position is an 'N' and no deletion remains"
     # position of the first aligned reference base
     both = np.where(tr[:, 0] != -1)[0]
     ref_idx = inner[:, 0][inner[:, 0] != -1]
